@@ -383,11 +383,13 @@ impl Sys {
         let scratch = Scratch::new(&self.base);
         let mut roots = Vec::new();
         for (i, l) in self.cfg.lowers.iter().enumerate() {
-            let r = scratch.root.join(format!("L{}", i));
+            // layer directories whose NAMES contain the pattern language's own metacharacters
+            // (a mod folder called "Patch [v2]"): a listing is built from the directory's path
+            let r = scratch.root.join(format!("L{}{}", i, ["", " [v2]", "*x", "?"][i % 4]));
             materialise(&r, l);
             roots.push(r);
         }
-        let t = scratch.root.join("TOP");
+        let t = scratch.root.join(if self.cfg.lowers.len() % 2 == 0 { "T[O]P!" } else { "TOP" });
         materialise(&t, top);
         roots.push(t);
         // the roots are handed over in NON-canonical spellings (a `..` detour, a trailing slash, a
@@ -1273,6 +1275,90 @@ fn scale_script(sys: &Sys, o: &mut Outcome) -> u64 {
     steps
 }
 
+/// Entry NAMES outside the plain alphabet of the search: the pattern language's metacharacters
+/// (`[ ] * ?`), a backslash, two dots inside a name, a leading dot, a leading dash, and a nested
+/// copy of the layer's own absolute path (a backup unpacked inside the layer). Such entries are
+/// layer content like any other: listed under their own directory and nowhere else.
+fn odd_names_script(sys: &Sys, o: &mut Outcome) -> u64 {
+    let mut steps = 0u64;
+    let r = util::catch(|| -> Result<Vec<(String, String)>, String> {
+        let mut odd = Tree::new();
+        let dirs = ["o", "o/d[1]", "o/d1", "o/e", "o/odd\\dir", "o/st*r", "o/star", "o/q?", "o/qx", "o/[", "o/]", "o/-dash", "o/.dot", "o/n"];
+        for d in dirs {
+            odd.insert(d.to_string(), Node::Dir);
+        }
+        for (f, b) in [("o/d[1]/in.bin", "in"), ("o/d1/other.bin", "other"), ("o/e/f[2].bin", "f2"), ("o/e/f2.bin", "plain f2"), ("o/e/a*b", "ab"), ("o/e/q?", "q"), ("o/e/back\\slash.txt", "bs"), ("o/e/v1..2", "dots"), ("o/e/..hid", "hid"), ("o/e/save..bak.txt", "bak"), ("o/e/[", "["), ("o/e/]", "]"), ("o/e/-x.bin", "-x"), ("o/e/{a,b}.txt", "brace"), ("o/e/!x", "bang"), ("o/odd\\dir/f.bin", "f"), ("o/st*r/s.txt", "s"), ("o/star/plain.txt", "p"), ("o/q?/q.bin", "q"), ("o/qx/plain.bin", "p"), ("o/[/l.bin", "l"), ("o/]/r.bin", "r"), ("o/-dash/d.bin", "d"), ("o/.dot/h.bin", "h")] {
+            odd.insert(f.to_string(), file(b.as_bytes()));
+        }
+        // the localized location of o/d[1] exists as well
+        if let Some(p) = sys.cfg.localize("o/d[1]") {
+            let cs = comps(&p);
+            if cs.join("/") != "o/d[1]" {
+                for i in 1..=cs.len() {
+                    odd.entry(cs[..i].join("/")).or_insert(Node::Dir);
+                }
+                odd.insert(format!("{}/loc.bin", cs.join("/")), file(b"localized"));
+            }
+        }
+        let mut top = Tree::new();
+        top.insert("o".into(), Node::Dir);
+        top.insert("o/d[1]".into(), Node::Dir);
+        top.insert("o/d[1]/top.bin".into(), file(b"top"));
+        top.insert("o/e".into(), Node::Dir);
+        top.insert("o/e/f[2].bin".into(), file(b"top f2"));
+        let cfg = Config { name: format!("{} / odd names", sys.cfg.name), loc: sys.cfg.loc, lang: sys.cfg.lang, lowers: vec![odd.clone(), [("o".to_string(), Node::Dir), ("o/d1".to_string(), Node::Dir), ("o/d1/second.bin".to_string(), file(b"2"))].into_iter().collect()], depth: 0, init_tops: vec![] };
+        let sys2 = Sys { cfg, which: sys.which, base: sys.base.join("odd") };
+        let w = sys2.build_world(&top)?;
+        // a nested copy of the lowest layer's own absolute path inside it
+        let root0 = w.roots[0].display().to_string();
+        let nested = format!("o/n/{}", root0.trim_start_matches('/'));
+        std::fs::create_dir_all(w.roots[0].join(&nested)).map_err(|e| e.to_string())?;
+        std::fs::write(w.roots[0].join(&nested).join("deep.bin"), b"deep").map_err(|e| e.to_string())?;
+        let layers: Vec<Tree> = w.roots.iter().map(|r| snapshot(r)).collect();
+        let mut out = Vec::new();
+        let globs: [Option<&str>; 6] = [None, Some("*"), Some("*.bin"), Some("**/*.txt"), Some("**/*"), Some("e/*")];
+        let mut seen = std::collections::HashSet::new();
+        let mut listed: Vec<String> = dirs.iter().map(|d| d.to_string()).collect();
+        listed.push(String::new());
+        listed.push(nested.clone());
+        listed.push("o/missing[1]".into());
+        for dir in &listed {
+            for loc in [false, true] {
+                if loc && dir.is_empty() {
+                    continue;
+                }
+                sys2.check_dir(&w, &layers, dir, loc, &globs, &mut seen, &mut out);
+            }
+        }
+        // look-ups of the same names: highest layer wins, byte for byte
+        for (p, want) in [("o/e/f[2].bin", &b"top f2"[..]), ("o/e/a*b", b"ab"), ("o/e/q?", b"q"), ("o/e/back\\slash.txt", b"bs"), ("o/e/v1..2", b"dots"), ("o/d[1]/in.bin", b"in"), ("o/d[1]/top.bin", b"top"), ("o/d1/second.bin", b"2")] {
+            match w.fs.read(p, false) {
+                Ok(b) if b == want => {}
+                other => out.push(("odd-names:read".to_string(), format!("read({:?}) = {:?}, the highest layer holding it has {:?}", p, other.map_err(|e| e.to_string()), want))),
+            }
+            if !matches!(w.fs.file_exists(p, false), Ok(true)) || !matches!(w.fs.exists(p, false), Ok(true)) {
+                out.push(("odd-names:exists".to_string(), format!("file_exists / exists deny {:?}", p)));
+            }
+        }
+        Ok(out)
+    });
+    match r {
+        Err(p) => o.violate(format!("panic@{}:odd-names", p.location), format!("[{}] odd-names script panicked: {}", sys.cfg.name, p.message), json!({"odd_names_script": sys.cfg.name})),
+        Ok(Err(e)) => o.machinery(format!("odd-names script: {}", e)),
+        Ok(Ok(v)) => {
+            steps = 17 * 2 * 7 + 16;
+            let mut sigs = std::collections::BTreeSet::new();
+            for (sig, summary) in v {
+                // one report per kind of divergence
+                if sigs.insert(sig.clone()) {
+                    o.violate(format!("odd-names:{}", sig.trim_start_matches("odd-names:")), format!("[{}] {}", sys.cfg.name, summary), json!({"odd_names_script": sys.cfg.name}));
+                }
+            }
+        }
+    }
+    steps
+}
+
 /// configurations for the filesystem half of C14: every supported game × language
 pub fn configs_c14(tier: Tier) -> Vec<Config> {
     configs(tier).into_iter().filter(|c| (c.name.contains("localized d/a]") && c.lowers.len() == 3 && c.name.contains("a+d/a")) || c.name.contains("other languages only]")).map(|mut c| {
@@ -1316,6 +1402,11 @@ pub fn explore(ctx: &Ctx, which: Which) -> Outcome {
         if (which == Which::C12 && sys.cfg.lowers.len() == 1) || c14_scale {
             let n = scale_script(&sys, &mut o);
             cov.transitions += n;
+        }
+        if which != Which::C14 && sys.cfg.lowers.len() == 1 {
+            let n = odd_names_script(&sys, &mut o);
+            cov.transitions += n;
+            *wit_total.entry("odd-names scripts".into()).or_insert(0) += 1;
         }
         let rep = bfs::explore(&sys, Some(depth), None);
         cov.states += rep.states;
@@ -1374,6 +1465,18 @@ pub fn explore(ctx: &Ctx, which: Which) -> Outcome {
 pub fn replay(ctx: &Ctx, which: Which, case: &Value) -> Vec<Violation> {
     if case.get("ctor").is_some() {
         return vec![];
+    }
+    if let Some(name) = case["odd_names_script"].as_str() {
+        let base = ctx.scratch("replay");
+        let mut o = Outcome::default();
+        for (ci, cfg) in configs(Tier::Quick).into_iter().enumerate() {
+            if cfg.name == name {
+                let sys = Sys { cfg, which, base: base.join(format!("c{}", ci)) };
+                odd_names_script(&sys, &mut o);
+            }
+        }
+        let _ = std::fs::remove_dir_all(&base);
+        return o.violations.into_iter().filter(|v| v.sig == case["sig"].as_str().unwrap_or(&v.sig)).collect();
     }
     if let Some(name) = case["scale_script"].as_str() {
         let base = ctx.scratch("replay");
